@@ -1,12 +1,17 @@
 """Generic property runner: contracts -> obligations -> solvers -> verdict, evidence, replay files.
 
 Exit codes: 0 held (known findings carved out) / 1 violation / 2 undecided / 3 checker crash.
+
+Work is split per function under contract: one forked worker generates the obligations of one function from
+the current source, solves them (z3, cvc5), and proves failing obligations again outside the recorded
+known-finding regions.  Only plain records travel back to the parent, which replays counter-models natively.
 """
 from __future__ import annotations
 
 import fnmatch
 import hashlib
 import json
+import multiprocessing as mp
 import os
 import subprocess
 import sys
@@ -21,6 +26,7 @@ from .symexec import Executor
 
 VERIF = os.path.dirname(os.path.dirname(os.path.abspath(__file__)))
 REPLAY_PY = "/venv/bin/python"
+WITNESS_ENV: dict = {}
 
 
 class Prop:
@@ -50,13 +56,49 @@ class Prop:
         """[dict(name, bound, evaluations, failures, detail)] stand-ins, never counted as proved."""
         return []
 
-    def replay(self, ob: Obligation):
+    def replay(self, ob: "ObRec"):
         """Turn a counter-model into a native run.  Return dict(failed: bool, input:..., outcome:...) or None."""
         return None
 
     def witness_replay(self, finding: dict):
         """Replay the recorded witness of a known finding natively: dict(failed, outcome)."""
         return None
+
+
+class ObRec:
+    """Plain record of one obligation after solving (picklable)."""
+
+    def __init__(self, ob: Obligation):
+        self.id, self.kind, self.where, self.note = ob.id, ob.kind, ob.where, ob.note
+        self.group = getattr(ob, "group", ob.id)
+        self.verdict, self.solver, self.seconds, self.model = ob.verdict, ob.solver, ob.seconds, ob.model
+        self.reason = getattr(ob, "reason", "")
+        self.goal_txt = str(ob.goal)[:2000]
+        self.hyps_txt = [str(h)[:400] for h in ob.hyps][:40]
+        self.input_consts = {}
+        for name, sv in ob.inputs.items():
+            try:
+                t = sv.t
+                self.input_consts[name] = (t.decl().name(), "str" if t.sort() == z3.StringSort() else "bool" if t.sort() == z3.BoolSort() else "int")
+            except Exception:
+                pass
+        for name, t in getattr(ob, "ghost_inputs", {}).items():
+            if z3.is_const(t):
+                self.input_consts[name] = (t.decl().name(), "str" if t.sort() == z3.StringSort() else "int")
+        self.carved_by: list[str] = []
+        self.status = "discharged" if ob.verdict == "unsat" else "violation" if ob.verdict == "sat" else "undecided"
+
+    def input_value(self, name):
+        """Concrete value of a named symbolic input in the counter-model (int / bool / str), or None."""
+        if not self.model or name not in self.input_consts:
+            return None
+        cname, kind = self.input_consts[name]
+        sort = z3.StringSort() if kind == "str" else z3.BoolSort() if kind == "bool" else z3.IntSort()
+        return smt.model_value(self.model, z3.Const(cname, sort))
+
+    @property
+    def inputs(self):
+        return {n: None for n in self.input_consts}
 
 
 def native(code: str, timeout=60, env_extra=None):
@@ -70,8 +112,8 @@ def native(code: str, timeout=60, env_extra=None):
     try:
         p = subprocess.run([REPLAY_PY, "-c", pre + code], capture_output=True, text=True, timeout=timeout, env=env, cwd="/")
         return p.returncode, p.stdout, p.stderr
-    except subprocess.TimeoutExpired as e:
-        return 124, (e.stdout or b"").decode() if isinstance(e.stdout, bytes) else (e.stdout or ""), "timeout"
+    except subprocess.TimeoutExpired:
+        return 124, "", "timeout"
 
 
 def load_known():
@@ -82,8 +124,9 @@ def load_known():
         return json.load(f)["findings"]
 
 
-def finding_matches(f, prop_id, ob: Obligation):
-    return f["property"] == prop_id and any(fnmatch.fnmatch(ob.id, pat) for pat in f["obligations"])
+def finding_matches(f, prop_id, ob_id):
+    # "also": other properties whose checks share the failing obligation (e.g. C12 re-verifies C01's encoder contracts)
+    return (f["property"] == prop_id or prop_id in f.get("also", [])) and any(fnmatch.fnmatch(ob_id, pat) for pat in f["obligations"])
 
 
 def witness_formula(f, ob: Obligation):
@@ -98,9 +141,99 @@ def witness_formula(f, ob: Obligation):
         except Unsupported:
             pass
     env.update(getattr(ob, "ghost_inputs", {}))
-    return eval(expr, env)
+    env.update(WITNESS_ENV)
+    try:
+        return eval(expr, env)
+    except Exception:
+        return "not-expressible"
 
 
+# ----------------------------------------------------------------------------------------------------------
+# worker side
+# ----------------------------------------------------------------------------------------------------------
+_G = {}
+
+
+def _classify(w, prop_id, ob: Obligation, known, timeout) -> ObRec:
+    rec = ObRec(ob)
+    if ob.verdict != "sat":
+        return rec
+    fs = [f for f in known if f.get("status") == "known" and finding_matches(f, prop_id, ob.id)]
+    if not fs:
+        return rec
+    Ws = [witness_formula(f, ob) for f in fs]
+    if any(isinstance(W, str) for W in Ws):
+        return rec  # the recorded region cannot be expressed over this obligation's inputs: nothing is carved out
+    if any(W is None for W in Ws):
+        rec.status, rec.carved_by = "carved", [f["id"] for f in fs]
+        return rec
+    # prove the obligation outside the recorded witness regions: any other violation still fires
+    v, solver, secs, model, reason = smt.solve_formula(w, ob.hyps + [z3.Not(W) for W in Ws], ob.goal, timeout)
+    rec.seconds += secs
+    if v == "unsat":
+        rec.status, rec.carved_by = "carved", [f["id"] for f in fs]
+    elif v == "sat":
+        rec.model = model
+        rec.note = (rec.note + " | fails outside the known-finding region " + ",".join(f["id"] for f in fs)).strip(" |")
+    else:
+        rec.status, rec.reason = "undecided", f"outside known region: {reason[:100]}"
+    return rec
+
+
+def _unit(args):
+    kind, key = args[:2]
+    chunk, nchunks = (args[2], args[3]) if len(args) > 2 else (0, 1)
+    w, prop, known, timeout = _G["w"], _G["prop"], _G["known"], _G["timeout"]
+    t0 = time.time()
+    out = {"kind": kind, "key": key, "records": [], "undecided": [], "meta": {}}
+    try:
+        if kind == "verify":
+            ex = Executor(w, prop.id)
+            c = w.contracts[key]
+            try:
+                obs = ex.verify(c)
+            except Unsupported as e:
+                out["undecided"].append(f"{key}: {e}")
+                return out
+            if not obs and chunk == 0:
+                out["undecided"].append(f"{key}: contract generated no obligation (vacuous)")
+            if chunk == 0:
+                out["meta"] = {"function": key, "obligations": len(obs), "sha256": extract.load(c.module).sha256[:16], "gen_s": round(time.time() - t0, 2),
+                               "trusted": sorted(ex.used_trusted), "inlined": sorted(ex.inlined), "assumed": sorted(ex.used_contracts)}
+            # a function with many hard obligations is split over several workers: each regenerates the (deterministic)
+            # obligation list and solves its share
+            for ob in obs[chunk::nchunks]:
+                r = smt.solve_formula(w, ob.hyps, ob.goal, timeout)
+                ob.verdict, ob.solver, ob.seconds, ob.model, ob.reason = r
+                out["records"].append(_classify(w, prop.id, ob, known, timeout))
+        elif kind == "lemmas":
+            for name, hyps, goal, inputs in prop.lemmas(w):
+                ob = Obligation(name, "lemma", hyps, goal, where="lemma")
+                ob.ghost_inputs, ob.group = inputs, name
+                r = smt.solve_formula(w, ob.hyps, ob.goal, timeout)
+                ob.verdict, ob.solver, ob.seconds, ob.model, ob.reason = r
+                out["records"].append(_classify(w, prop.id, ob, known, timeout))
+        elif kind == "canary":
+            cc = dict(prop.canaries(w))[key]
+            ex = Executor(w, prop.id)
+            refuted = []
+            try:
+                cobs = ex.verify(cc)
+                for ob in cobs:
+                    v = smt.solve_formula(w, ob.hyps, ob.goal, min(timeout, 20.0), want_model=False)[0]
+                    if v == "sat":
+                        refuted.append(ob.id)
+                        break
+            except Unsupported as e:
+                out["undecided"].append(f"canary {key}: {e}")
+            out["meta"] = {"canary": key, "refuted_by": refuted, "ok": bool(refuted)}
+    except Exception as e:
+        out["undecided"].append(f"{kind} {key}: engine error {type(e).__name__}: {e} | {traceback.format_exc()[-300:]}")
+    out["wall"] = round(time.time() - t0, 2)
+    return out
+
+
+# ----------------------------------------------------------------------------------------------------------
 def run_property(prop: Prop, tier: str, seed: int, new_world, timeout_quick=30.0, timeout_thorough=120.0, out=sys.stdout):
     t0 = time.time()
     timeout = timeout_quick if tier == "quick" else timeout_thorough
@@ -116,129 +249,98 @@ def run_property(prop: Prop, tier: str, seed: int, new_world, timeout_quick=30.0
         status["crash"] = f"axiom differential test could not run: {e}"
     w = new_world()
     prop.setup(w)
-    ex = Executor(w, prop.id)
-    obligations: list[Obligation] = []
-    functions = []
-    for tgt in prop.targets:
-        c = w.contracts[tgt]
-        try:
-            obs = ex.verify(c)
-        except Unsupported as e:
-            status["undecided"].append(f"{tgt}: {e}")
-            continue
-        if not obs:
-            status["undecided"].append(f"{tgt}: contract generated no obligation (vacuous)")
-        functions.append({"function": tgt, "obligations": len(obs), "sha256": extract.load(c.module).sha256[:16]})
-        obligations.extend(obs)
-    for name, hyps, goal, inputs in prop.lemmas(w):
-        ob = Obligation(name, "lemma", hyps, goal, where="lemma")
-        ob.ghost_inputs = inputs
-        ob.group = name
-        obligations.append(ob)
-    smt.solve_all(w, obligations, timeout)
-
-    # static obligations
-    static = []
-    for name, ok, detail in prop.static_checks(w):
-        static.append({"id": name, "ok": bool(ok), "detail": detail})
-
-    # canaries: an unsound engine would "prove" these
-    canary_results = []
-    for name, cc in prop.canaries(w):
-        exc = Executor(w, prop.id)
-        try:
-            cobs = exc.verify(cc)
-            smt.solve_all(w, cobs, timeout, procs=1 if len(cobs) < 4 else None)
-            refuted = [o.id for o in cobs if o.verdict == "sat"]
-        except Unsupported as e:
-            refuted = []
-            status["undecided"].append(f"canary {name}: {e}")
-        canary_results.append({"canary": name, "refuted_by": refuted[:3], "ok": bool(refuted)})
-        if not refuted:
-            status["crash"] = f"canary {name} was not refuted: the engine accepts a deliberately false contract"
-
-    # classify
+    WITNESS_ENV.clear()
+    WITNESS_ENV.update(getattr(sys.modules.get(type(prop).__module__), "witness_env", lambda: {})())
     known = load_known()
+    _G.update(w=w, prop=prop, known=known, timeout=timeout)
+    heavy = getattr(prop, "heavy", {})
+    units = []
+    for t in prop.targets:
+        n = heavy.get(t, 1)
+        units.extend(("verify", t, i, n) for i in range(n))
+    units.sort(key=lambda u: -heavy.get(u[1], 1))
+    units += [("lemmas", "all")] + [("canary", n) for n, _ in prop.canaries(w)]
+    procs = int(os.environ.get("PYVC_PROCS", "0")) or min(16, os.cpu_count() or 4, max(1, len(units)))
+    if procs > 1:
+        with mp.get_context("fork").Pool(procs) as pool:
+            results = pool.map(_unit, units, chunksize=1)
+    else:
+        results = [_unit(u) for u in units]
+
+    records: list[ObRec] = []
+    functions, canary_results = [], []
+    trusted, inlined, assumed = set(), set(), set()
+    for r in results:
+        status["undecided"].extend(r["undecided"])
+        records.extend(r["records"])
+        if r["kind"] == "verify" and r["meta"]:
+            m = r["meta"]
+            functions.append({k: m[k] for k in ("function", "obligations", "sha256", "gen_s")})
+            trusted |= set(m["trusted"])
+            inlined |= set(m["inlined"])
+            assumed |= set(m["assumed"])
+        if r["kind"] == "canary" and r["meta"]:
+            canary_results.append(r["meta"])
+            if not r["meta"]["ok"]:
+                status["crash"] = f"canary {r['meta']['canary']} was not refuted: the engine accepts a deliberately false contract"
+
+    static = [{"id": name, "ok": bool(ok), "detail": detail} for name, ok, detail in prop.static_checks(w)]
+
     discharged = 0
-    carved = []
-    replay_dir = os.path.join(VERIF, "replays", prop.id)
-    for ob in obligations:
-        if ob.verdict == "unsat":
+    carved_ids: dict[str, dict] = {}
+    kf = {f["id"]: f for f in known}
+    for rec in records:
+        if rec.status == "discharged":
             discharged += 1
-            continue
-        if ob.verdict != "sat":
-            status["undecided"].append(f"{ob.id}: solver {ob.solver}: {getattr(ob, 'reason', '')[:120]}")
-            continue
-        fs = [f for f in known if f.get("status") == "known" and finding_matches(f, prop.id, ob)]
-        if not fs:
-            status["violations"].append(ob)
-            continue
-        Ws = [witness_formula(f, ob) for f in fs]
-        if any(W is None for W in Ws):
-            carved.extend((ob, f) for f in fs)
+        elif rec.status == "carved":
             discharged += 1
-            continue
-        # prove the obligation outside the recorded witness regions: any other violation still fires
-        v, solver, secs, model, reason = smt.solve_formula(w, ob.hyps + [z3.Not(W) for W in Ws], ob.goal, timeout)
-        if v == "unsat":
-            carved.extend((ob, f) for f in fs)
-            discharged += 1
-        elif v == "sat":
-            ob.model = model
-            ob.note = (ob.note + " | fails outside the known-finding region " + ",".join(f["id"] for f in fs)).strip(" |")
-            status["violations"].append(ob)
+            for fid in rec.carved_by:
+                carved_ids[fid] = kf[fid]
+        elif rec.status == "violation":
+            status["violations"].append(rec)
         else:
-            status["undecided"].append(f"{ob.id} (outside known region): {reason[:100]}")
+            status["undecided"].append(f"{rec.id}: solver {rec.solver}: {rec.reason[:120]}")
     for s in static:
         if not s["ok"]:
-            fs = [f for f in known if f.get("status") == "known" and f["property"] == prop.id and any(fnmatch.fnmatch(s["id"], p) for p in f["obligations"])]
+            fs = [f for f in known if f.get("status") == "known" and finding_matches(f, prop.id, s["id"])]
             if fs:
-                carved.append((s, fs[0]))
                 s["known"] = fs[0]["id"]
+                carved_ids[fs[0]["id"]] = fs[0]
             else:
                 status["violations"].append(s)
 
     # known findings: replay the recorded witness; print KNOWN-FINDING only while it still fails
-    seen_f = {}
-    for ob, f in carved:
-        seen_f.setdefault(f["id"], f)
+    seen_f = dict(carved_ids)
+    for f in known:  # findings attached to a bounded stand-in (the stand-in itself excludes exactly the recorded inputs)
+        if f.get("status") == "known" and f["property"] == prop.id and any(p.startswith("bounded/") for p in f["obligations"]):
+            seen_f.setdefault(f["id"], f)
     for fid, f in seen_f.items():
         r = prop.witness_replay(f)
         if r is None or r.get("failed"):
             print(f"KNOWN-FINDING: property={prop.id} {f['what']}", file=out)
             status["known"].append({"id": fid, "what": f["what"], "witness_replay": r})
-        else:
-            # the obligation fails only in the recorded region, but the recorded witness no longer fails natively
-            class _O:  # noqa
-                pass
-            o = _O()
-            o.id, o.note, o.model, o.kind = f"{fid}/witness-no-longer-fails", "obligation still fails in the recorded region but the recorded witness passes natively", None, "known-mismatch"
-            o.formula_txt = ""
-            status["violations"].append(o)
+        elif fid in carved_ids:
+            status["violations"].append({"id": f"{fid}/witness-no-longer-fails", "detail": "an obligation still fails in the recorded region but the recorded witness passes natively", "nonreplay": True})
 
     # violations: replay + report
     vio_lines = []
+    replay_dir = os.path.join(VERIF, "replays", prop.id)
     os.makedirs(replay_dir, exist_ok=True)
     reported = set()
     for v in status["violations"]:
         if isinstance(v, dict):
-            vid, detail = v["id"], v["detail"]
-            grp = vid
-            rp = {"obligation": vid, "kind": "static", "detail": detail}
-            r = None
+            vid, grp = v["id"], v["id"]
+            rp = {"obligation": vid, "kind": "static", "detail": v["detail"]}
+            r = {"failed": not v.get("nonreplay")}
         else:
-            vid = v.id
-            grp = getattr(v, "group", vid)
-            rp = {"obligation": vid, "kind": v.kind, "note": getattr(v, "note", ""),
-                  "solver": getattr(v, "solver", None), "model": getattr(v, "model", None)}
-            if isinstance(v, Obligation):
-                rp["formula"] = str(v.goal)[:2000]
-                rp["hypotheses"] = [str(h)[:400] for h in v.hyps][:40]
+            vid, grp = v.id, v.group
+            rp = {"obligation": vid, "kind": v.kind, "note": v.note, "solver": v.solver, "model": v.model, "formula": v.goal_txt, "hypotheses": v.hyps_txt}
             r = None
-            try:
-                r = prop.replay(v) if isinstance(v, Obligation) else None
-            except Exception as e:  # replay trouble never hides the violation
-                r = {"failed": False, "outcome": f"replay harness error: {type(e).__name__}: {e}"}
+            if grp not in reported:
+                try:
+                    r = prop.replay(v)
+                except Exception as e:  # replay trouble never hides the violation
+                    r = {"failed": False, "outcome": f"replay harness error: {type(e).__name__}: {e}"}
         if grp in reported:
             continue
         reported.add(grp)
@@ -247,7 +349,7 @@ def run_property(prop: Prop, tier: str, seed: int, new_world, timeout_quick=30.0
         fn = os.path.join(replay_dir, hashlib.sha1(vid.encode()).hexdigest()[:12] + ".json")
         with open(fn, "w") as fh:
             json.dump(rp, fh, indent=1, default=str)
-        suffix = "" if (r and r.get("failed")) or isinstance(v, dict) else " no-failing-input-found"
+        suffix = "" if (r and r.get("failed")) else " no-failing-input-found"
         vio_lines.append(f"VIOLATION property={prop.id} replay={fn}{suffix}")
         print(f"  failed obligation: {vid}", file=out)
 
@@ -256,15 +358,6 @@ def run_property(prop: Prop, tier: str, seed: int, new_world, timeout_quick=30.0
         bounded = prop.bounded(tier)
     except Exception as e:
         status["undecided"].append(f"bounded stand-in crashed: {type(e).__name__}: {e}")
-    # known findings attached to a bounded stand-in: the stand-in itself excludes exactly the recorded inputs
-    # (see the property's bounded()); here the recorded witness is replayed and reported while it still fails
-    for f in known:
-        if f.get("status") == "known" and f["property"] == prop.id and any(p.startswith("bounded/") for p in f["obligations"]) and f["id"] not in seen_f:
-            r = prop.witness_replay(f)
-            if r is None or r.get("failed"):
-                print(f"KNOWN-FINDING: property={prop.id} {f['what']}", file=out)
-                status["known"].append({"id": f["id"], "what": f["what"], "witness_replay": r})
-                seen_f[f["id"]] = f
     for b in bounded:
         if b.get("failures"):
             fn = os.path.join(replay_dir, "bounded_" + hashlib.sha1(b["name"].encode()).hexdigest()[:8] + ".json")
@@ -273,28 +366,25 @@ def run_property(prop: Prop, tier: str, seed: int, new_world, timeout_quick=30.0
             vio_lines.append(f"VIOLATION property={prop.id} replay={fn}")
             print(f"  failed bounded stand-in: {b['name']}", file=out)
 
-    n_ob = len(obligations) + len(static)
+    n_ob = len(records) + len(static)
     n_dis = discharged + sum(1 for s in static if s["ok"] or s.get("known"))
     by_backend = {}
-    for ob in obligations:
-        by_backend[ob.solver or "?"] = by_backend.get(ob.solver or "?", 0) + 1
+    for rec in records:
+        by_backend[rec.solver or "?"] = by_backend.get(rec.solver or "?", 0) + 1
     if static:
         by_backend["static"] = len(static)
-    samples = []
-    for ob in obligations[:3] + obligations[-2:]:
-        samples.append({"id": ob.id, "kind": ob.kind, "goal": str(ob.goal)[:300], "verdict": ob.verdict, "solver": ob.solver, "seconds": round(ob.seconds, 3)})
-    for s in static[:2]:
-        samples.append(s)
+    samples = [{"id": rec.id, "kind": rec.kind, "goal": rec.goal_txt[:300], "verdict": rec.verdict, "solver": rec.solver, "seconds": round(rec.seconds, 3)} for rec in records[:3] + records[-2:]]
+    samples += static[:2]
     ev = {
         "property_id": prop.id, "tier": tier, "seed": seed, "level": prop.level,
         "coverage": {
             "obligations": n_ob, "discharged": n_dis,
             "checker_cmd": f"./check {prop.id} --tier {tier}",
-            "trusted_base": sorted(set(ex.used_trusted)) + [f"inlined:{x}" for x in sorted(ex.inlined)] + extract.DROPPED,
+            "trusted_base": sorted(trusted) + [f"inlined:{x}" for x in sorted(inlined)] + extract.DROPPED,
             "functions_under_contract": functions,
-            "contracts_assumed_at_call_sites": sorted(ex.used_contracts),
+            "contracts_assumed_at_call_sites": sorted(assumed),
             "by_backend": by_backend,
-            "solver_seconds": round(sum(o.seconds for o in obligations), 2),
+            "solver_seconds": round(sum(rec.seconds for rec in records), 2),
             "canaries": canary_results,
             "axiom_differential_checks": {"run": len(axres), "passed": sum(1 for _, k in axres if k), "interpreter": REPLAY_PY},
             "static_obligations": len(static),
